@@ -112,6 +112,12 @@ func scenario(x *explore.X) {
 		x.Outcome("inadmissible")
 		return
 	}
+	// a tunnel whose client has finished sending (TCP half-close) before the target sends its bulk: the
+	// direction towards the client stays open and stays limited
+	halfClosed := false
+	if kind == "tunnel" && !shutdownMid {
+		halfClosed = x.ChooseFree("client-half-closes-before-the-download", 2) == 1
+	}
 	opts := world.Options{ReadLimit: r, WriteLimit: wl, ShutdownTimeout: 48 * time.Hour}
 	if withTimeouts {
 		opts.Tweak = func(cfg *forwarder.HTTPProxyConfig, _ *forwarder.HTTPTransportConfig) {
@@ -250,6 +256,18 @@ func scenario(x *explore.X) {
 				return
 			}
 		}
+		if halfClosed {
+			what += " (clients half-closed before the download)"
+			for _, c := range clients {
+				c.CloseWrite()
+			}
+			world.Settle(0)
+			for i, tc := range tun.Raw {
+				if !tc.SawEOF() {
+					x.Failf("half-close-not-propagated", "%s: tunnel %d: the client finished sending but the target does not observe end-of-stream", what, i)
+				}
+			}
+		}
 		// towards the clients first, then towards the target, each traced on its own
 		for _, tc := range tun.Raw {
 			tc.SendNoWait(down)
@@ -263,6 +281,17 @@ func scenario(x *explore.X) {
 		}
 		trd := trace(totalDown, int64(nconn)*int64(size), stepFor(r), horizon)
 		checkBound(x, what+" [tunnel bytes received by clients]", trd, r, nconn)
+		if halfClosed {
+			// (the proxy ends a tunnel one minute after its first direction has finished - documented behaviour of the
+			// relay - so a download that needs longer than that is cut short: what did arrive must be a prefix)
+			for i := range clients {
+				got := clients[i].Recv()[okLen:]
+				if !bytes.HasPrefix(down, got) || (len(got) < len(down) && trd[len(trd)-1].t < time.Minute) {
+					x.Failf("data-altered", "%s: tunnel %d: bytes towards the client altered or cut short (%d of %d after %v)", what, i, len(got), len(down), trd[len(trd)-1].t)
+				}
+			}
+			break
+		}
 		before := func() int64 {
 			var n int64
 			for _, c := range clients {
@@ -320,7 +349,7 @@ func scenario(x *explore.X) {
 
 func TestC20(t *testing.T) {
 	s := explore.NewSuite(t, "C20", "model_checking",
-		"(read-limit, write-limit) in {0, 1 MiB/s, 64 MiB/s, 300 MiB/s, 16 KiB/s, 3000 B/s}^2 (the last two are smaller than one relay buffer / one bufio buffer) x transfer {download, upload, CONNECT tunnel both ways} of 12 MiB per connection (burst + 256 KiB with a limit below 1 MiB/s) x {1,2,3} connections sharing the listener x {no shutdown, graceful shutdown requested while the transfer is under way} x {no client-side time limits, read-timeout 2 s + write-timeout 3 s (bound only)} [full product]; on the virtual clock the receiving side's (time, cumulative bytes) is sampled 64+ times per transfer (states = samples) and the token-bucket bound bytes <= burst + rate x dt + one 64 KiB write per connection is checked between EVERY pair of samples, plus minimum duration, zero virtual time for an unlimited direction, and byte-for-byte identity of the data")
+		"(read-limit, write-limit) in {0, 1 MiB/s, 64 MiB/s, 300 MiB/s, 16 KiB/s, 3000 B/s}^2 (the last two are smaller than one relay buffer / one bufio buffer) x transfer {download, upload, CONNECT tunnel both ways} of 12 MiB per connection (burst + 256 KiB with a limit below 1 MiB/s) x {1,2,3} connections sharing the listener x {no shutdown, graceful shutdown requested while the transfer is under way} x {no client-side time limits, read-timeout 2 s + write-timeout 3 s (bound only)} x (tunnels) {client keeps sending, client half-closes before the download} [full product]; on the virtual clock the receiving side's (time, cumulative bytes) is sampled 64+ times per transfer (states = samples) and the token-bucket bound bytes <= burst + rate x dt + one 64 KiB write per connection is checked between EVERY pair of samples, plus minimum duration, zero virtual time for an unlimited direction, and byte-for-byte identity of the data")
 	s.Assume = []string{"virtual clock of testing/synctest drives golang.org/x/time/rate", "documented slack: the limiter is charged after each write, so one write (<= 64 KiB) per connection may exceed the bucket", "simnet receive buffers are unbounded, so the only throttle is the limiter under test"}
 	s.Add(explore.Scenario{Name: "limits", Remote: true, Run: func(x *explore.X) { world.Run(t, x, func() { scenario(x) }) }})
 	s.Main()
